@@ -156,8 +156,10 @@ def pick_gap(r, per):
 
 def cold_prefix(r, s, with_h):
     """poll until the node has opened (both builds), optionally calling the setter before Open()"""
-    if with_h and r.random() < 0.5:
-        s.H(r.choice([1, 1000, 2500, 65536, 655321, KEEP, RESTORE, 0]), r.choice([0, 10, 999, 65535, KEEP]), None if r.random() < 0.7 else r.randrange(s.ndev))
+    if with_h and r.random() < 0.7:
+        # incl. exactly the default values (60000 / 10000, RESTORE): Open()'s own call does not regard them as a change, the schedule must still
+        # start 10 s after Open()
+        s.H(r.choice([1, 1000, 2500, 65536, 655321, KEEP, RESTORE, 0, 60000, 60000, RESTORE]), r.choice([0, 10, 999, 65535, KEEP, 10000, 10000]), None if r.random() < 0.7 else r.randrange(s.ndev))
     if r.random() < 0.7:
         s.P()
         elapsed = 0
@@ -272,7 +274,7 @@ def scenario(r, ndev=None, mode=None, cold=None, t0=None, n_eps=None, huge=False
     src = r.choice([0, 22, 100, 240 - ndev, 252 - ndev])
     s = Scenario(r, ndev, mode, src, t0, cold)
     if cold:
-        cold_prefix(r, s, with_h=r.random() < 0.3)
+        cold_prefix(r, s, with_h=r.random() < 0.5)
     elif r.random() < 0.3:
         s.P()
     n_eps = r.randint(3, 9) if n_eps is None else n_eps
